@@ -471,7 +471,15 @@ def check_name_extraction_shape(ctx):
     for st in defs:
         srcs = {norm(n) for n in ast.walk(st.value) if isinstance(n, ast.Attribute) and norm(n).startswith("obj.")}
         roots = {n.id for n in ast.walk(st.value) if isinstance(n, ast.Name)} - {"str", "repr", "obj", "dtype"}
-        if not any(s.startswith("obj.dtype") for s in srcs) and "dtype" not in {n.id for n in ast.walk(st.value) if isinstance(n, ast.Name)}:
+        helper_of_obj = isinstance(st.value, ast.Call) and m.resolve_call(f, st.value).kind == "func" and any(isinstance(a, ast.Name) and a.id == "obj" for a in st.value.args)
+        if helper_of_obj:
+            h = m.resolve_call(f, st.value).target
+            hp = h.params[0] if h.params else "obj"
+            if any(isinstance(n, ast.Attribute) and n.attr == "dtype" and isinstance(n.value, ast.Name) and n.value.id == hp for n in ast.walk(h.node)):
+                ctx.ok("C03.3", f.qualname, f"dtype name derived from obj.dtype in the helper {h.name}")
+            else:
+                raise AnalysisError(f"C03.3: the dtype name comes from helper `{h.name}`, in which no read of `.dtype` was recognised")
+        elif not any(s.startswith("obj.dtype") for s in srcs) and "dtype" not in {n.id for n in ast.walk(st.value) if isinstance(n, ast.Name)}:
             ctx.bad("C03.3", f, st, "the dtype name compared with the category is not derived from obj.dtype")
         else:
             ctx.ok("C03.3", f.qualname, f"dtype name derived from obj.dtype: `{short(st, 70)}`")
